@@ -54,6 +54,18 @@ class StructV(V):
         return f"{self.adt.split('::')[-1]}::{self.variant}{{" + ", ".join(f"{k}: {v!r}" for k, v in self.fields.items()) + "}"
 
 
+class EnumV(V):
+    """a symbolic value of a crate-local enum: the variant is decided (and remembered in the path
+    condition) when it is first matched; payloads are created on demand"""
+    __slots__ = ("adt", "name", "tyargs")
+
+    def __init__(self, adt, name, tyargs=None):
+        self.adt, self.name, self.tyargs = adt, name, tyargs
+
+    def __repr__(self):
+        return f"enum<{self.adt.split('::')[-1]} {self.name}>"
+
+
 class SliceV(V):
     """a view [start, end) into the byte buffer `base`"""
     __slots__ = ("base", "start", "end", "is_str")
